@@ -5,7 +5,10 @@ A == [k |-> "append", h |-> 0]
 I(h) == [k |-> "insert", h |-> h]
 R(h) == [k |-> "remove", h |-> h]
 V == [k |-> "invoke", h |-> 0]
-OpsSet == {A, V} \cup {I(h) : h \in 1..2} \cup {R(h) : h \in 1..2}
+P == [k |-> "prepend", h |-> 0]
+O(h) == [k |-> "owns", h |-> h]
+E == [k |-> "empty", h |-> 0]
+OpsSet == {A, V, P, E, O(1)} \cup {I(h) : h \in 1..2} \cup {R(h) : h \in 1..2}
 Progs == {<<o>> : o \in OpsSet} \cup {<<o1, o2>> : o1 \in {A, R(1)}, o2 \in {V, R(1), I(1)}}
 ScenSet == [Threads -> Progs]
 Progs1 == {<<o>> : o \in OpsSet}
